@@ -534,7 +534,7 @@ namespace Edzed.Persist
 
 /-! ## the invariant of histories -/
 
-def Good (c : Circ) : Prop := c.phase = .running ∨ c.phase = .aborted
+def Good (c : Circ) : Prop := c.phase = .running ∨ c.phase = .aborted ∨ c.phase = .stopping
 
 structure Inv (c : Circ) : Prop where
   nodup : (keys c.blocks).Nodup
@@ -553,16 +553,16 @@ theorem plain_set {l : List Blk} (hp : ∀ k ∈ keys l, reserved k = false) {i 
     (hi : l[i]? = some b) (hk : b'.key = b.key) : ∀ k ∈ keys (l.set i b'), reserved k = false := by
   rw [keys_set hi hk]; exact hp
 
+theorem good_of_phase {c : Circ}
+    (h : ¬ ((c.phase != .running && c.phase != .aborted && c.phase != .stopping) = true)) : Good c := by
+  cases hp : c.phase <;> simp_all [Good]
+
 theorem event_good {c c' : Circ} {cal : Val → Option Bool} {i : Nat} {ev : Ev} {r : Res}
     (h : c.event cal i ev = some (c', r)) : Good c := by
   unfold Circ.event at h
   split at h
   · simp at h
-  · next hp =>
-    simp only [bne_iff_ne, ne_eq, Bool.and_eq_true, not_and, Decidable.not_not] at hp
-    by_cases h1 : c.phase = .running
-    · exact Or.inl h1
-    · exact Or.inr (hp h1)
+  · next hp => exact good_of_phase hp
 
 /-- `event` on block `i`, all that is needed about the other blocks and about block `i` itself -/
 theorem event_inv {c c' : Circ} {cal : Val → Option Bool} {i : Nat} {ev : Ev} {r : Res} {b : Blk}
@@ -619,10 +619,14 @@ theorem event_inv {c c' : Circ} {cal : Val → Option Bool} {i : Nat} {ev : Ev} 
         · exact hv b hbm
         · exact hv x hx1
       · intro _ x hx hc
+        have hnr : (if c.phase == .running then Phase.aborted else c.phase) ≠ .running := by
+          by_cases h : c.phase = .running <;> simp [h]
         rcases mem_set_key hn hb hx with rfl | ⟨hx1, _⟩
-        · simp at hc
         · rcases hc with hc | hc
+          · exact absurd hc hnr
           · simp at hc
+        · rcases hc with hc | hc
+          · exact absurd hc hnr
           · exact hok x hx1 (Or.inr hc)
       · intro _ x hx hp hsy
         rcases mem_set_key hn hb hx with rfl | ⟨hx1, hx2⟩
@@ -758,11 +762,7 @@ theorem inv_fire {c c' : Circ} {cal : Val → Option Bool} {i : Nat} {r : Res}
   split at h
   · simp at h
   · next hph =>
-    simp only [bne_iff_ne, ne_eq, Bool.and_eq_true, not_and, Decidable.not_not] at hph
-    have hg : Good c := by
-      by_cases h1 : c.phase = .running
-      · exact Or.inl h1
-      · exact Or.inr (hph h1)
+    have hg : Good c := good_of_phase hph
     split at h
     · simp at h
     · next b hb =>
@@ -927,11 +927,11 @@ theorem inv_start (c : Circ) (cal : Val → Option Bool) (now : Time) (mode : St
   simp only [hidle, bne_self_eq_false, Bool.false_eq_true, if_false]
   cases mode with
   | abortedBefore =>
-    exact ⟨hn, hpl, fun hg => by rcases hg with h | h <;> simp at h, fun hg => by rcases hg with h | h <;> simp at h,
-      fun hg => by rcases hg with h | h <;> simp at h⟩
+    exact ⟨hn, hpl, fun hg => by rcases hg with h | h | h <;> simp at h, fun hg => by rcases hg with h | h | h <;> simp at h,
+      fun hg => by rcases hg with h | h | h <;> simp at h⟩
   | startRaises =>
-    exact ⟨hn, hpl, fun hg => by rcases hg with h | h <;> simp at h, fun hg => by rcases hg with h | h <;> simp at h,
-      fun hg => by rcases hg with h | h <;> simp at h⟩
+    exact ⟨hn, hpl, fun hg => by rcases hg with h | h | h <;> simp at h, fun hg => by rcases hg with h | h | h <;> simp at h,
+      fun hg => by rcases hg with h | h | h <;> simp at h⟩
   | ok =>
     simp only
     generalize hp : pass2 cal now (pass1 c.blocks (cleanUnused c.store c.blocks) (readTs c.store) cal now) = p
@@ -953,8 +953,8 @@ theorem inv_start (c : Circ) (cal : Val → Option Bool) (now : Time) (mode : St
         exact ⟨(hbs b hb).2 (hc.2 b hb), hc.2 b hb⟩
       · intro _ b hb hpers _
         exact saveAll_mem bs (by rw [hk]; exact hn) _ hb hpers
-    · exact ⟨by rw [← hk] at hn; exact hn, by rw [← hk] at hpl; exact hpl, fun hg => by rcases hg with h | h <;> simp at h,
-        fun hg => by rcases hg with h | h <;> simp at h, fun hg => by rcases hg with h | h <;> simp at h⟩
+    · exact ⟨by rw [← hk] at hn; exact hn, by rw [← hk] at hpl; exact hpl, fun hg => by rcases hg with h | h | h <;> simp at h,
+        fun hg => by rcases hg with h | h | h <;> simp at h, fun hg => by rcases hg with h | h | h <;> simp at h⟩
 
 end Edzed.Persist
 
@@ -1072,15 +1072,130 @@ theorem frozen_run (env : Time → Val → Option Bool) {k : String} {e : Option
   | nil => exact hf
   | cons op r ih => exact ih (frozen_step env hf op)
 
+/-- no block with `persistent and sync_state` owns key `k` (nothing is saved there by events), and the slot
+    holds `e` -/
+def Quiet (k : String) (e : Option Entry) (c : Circ) : Prop :=
+  (∀ b ∈ c.blocks, b.key = k → (b.persistent && b.sync) = false) ∧ c.store.get? k = e
+
+theorem quiet_event {k : String} {e : Option Entry} {c c' : Circ} {cal : Val → Option Bool} {i : Nat}
+    {ev : Ev} {r : Res} (hf : Quiet k e c) (h : c.event cal i ev = some (c', r)) : Quiet k e c' := by
+  unfold Circ.event at h
+  split at h
+  · simp at h
+  · split at h
+    · simp at h
+    · next b hb =>
+      have hbm : b ∈ c.blocks := List.mem_of_getElem? hb
+      simp only at h
+      generalize blockEvent b.kind cal c.now b.dyn ev = p at h
+      obtain ⟨d, r0⟩ := p
+      have key : ∀ (b' : Blk), b'.key = b.key → ((b'.persistent && b'.sync) = true → (b.persistent && b.sync) = true) →
+          ∀ x ∈ c.blocks.set i b', x.key = k → (x.persistent && x.sync) = false := by
+        intro b' hk hp x hx hxk
+        rcases List.mem_or_eq_of_mem_set hx with hx | rfl
+        · exact hf.1 x hx hxk
+        · cases hbp : (x.persistent && x.sync)
+          · rfl
+          · have := hf.1 b hbm (hk ▸ hxk)
+            rw [hp hbp] at this; simp at this
+      cases r0 with
+      | ret v =>
+        simp only [Option.some.injEq, Prod.mk.injEq] at h
+        obtain ⟨rfl, rfl⟩ := h
+        refine ⟨key _ rfl id, ?_⟩
+        show Storage.get? (if (b.persistent && b.sync) = true then _ else _) k = e
+        split
+        · next hcond =>
+          rw [saveBlk_other]
+          · exact hf.2
+          · intro _ heq
+            have := hf.1 b hbm heq.symm
+            rw [hcond] at this; simp at this
+        · exact hf.2
+      | handlerError =>
+        simp only [Option.some.injEq, Prod.mk.injEq] at h
+        obtain ⟨rfl, rfl⟩ := h
+        exact ⟨key _ rfl (fun h => by simp at h), hf.2⟩
+      | paramError =>
+        simp only [Option.some.injEq, Prod.mk.injEq] at h
+        obtain ⟨rfl, rfl⟩ := h
+        exact ⟨key _ rfl (fun h => by simp only [Bool.and_eq_true] at h ⊢; exact ⟨h.1.1, h.2⟩), hf.2⟩
+      | unknown =>
+        simp only [Option.some.injEq, Prod.mk.injEq] at h
+        obtain ⟨rfl, rfl⟩ := h
+        exact ⟨key _ rfl (fun h => by simp only [Bool.and_eq_true] at h ⊢; exact ⟨h.1.1, h.2⟩), hf.2⟩
+
+theorem quiet_fire {k : String} {e : Option Entry} {c c' : Circ} {cal : Val → Option Bool} {i : Nat}
+    {r : Res} (hf : Quiet k e c) (h : c.fire cal i = some (c', r)) : Quiet k e c' := by
+  unfold Circ.fire at h
+  split at h
+  · simp at h
+  · split at h
+    · simp at h
+    · next b hb =>
+      split at h
+      · simp at h
+      · split at h
+        · simp at h
+        · refine quiet_event ?_ h
+          refine ⟨?_, hf.2⟩
+          intro x hx hxk
+          rcases List.mem_or_eq_of_mem_set hx with hx | rfl
+          · exact hf.1 x hx hxk
+          · exact hf.1 b (List.mem_of_getElem? hb) hxk
+
+theorem quiet_step (env : Time → Val → Option Bool) {k : String} {e : Option Entry} {c : Circ}
+    (hf : Quiet k e c) (op : Op) : Quiet k e (step env c op) := by
+  cases op with
+  | ev i ev =>
+    simp only [step]
+    split
+    · next c' r h => exact quiet_event hf h
+    · exact hf
+  | fire i =>
+    simp only [step]
+    split
+    · split
+      · split
+        · next c' r h => exact quiet_fire hf h
+        · exact hf
+      · exact hf
+    · exact hf
+  | adv t =>
+    simp only [step]
+    cases h : c.advance t with
+    | none => exact hf
+    | some c' =>
+      have : c' = { c with now := t } := by
+        unfold Circ.advance at h
+        split at h
+        · simp at h
+        · split at h
+          · split at h
+            · simp at h
+            · simpa using h.symm
+          · simpa using h.symm
+      subst this; exact hf
+
+theorem quiet_run (env : Time → Val → Option Bool) {k : String} {e : Option Entry} (ops : List Op) {c : Circ}
+    (hf : Quiet k e c) : Quiet k e (run env c ops) := by
+  induction ops generalizing c with
+  | nil => exact hf
+  | cons op r ih => exact ih (quiet_step env hf op)
+
 theorem reserved_stopKey : reserved stopKey = true := by decide +kernel
 
-theorem frozen_stop {k : String} {e : Option Entry} {c : Circ} (hf : Frozen k e c) (hr : reserved k = false)
-    (t : Time) : (c.stop t).store.get? k = e := by
+theorem stopEnd_store (c : Circ) (t : Time) (complete : Bool) : (c.stopEnd t complete).store = c.store := by
+  unfold Circ.stopEnd; split <;> rfl
+
+theorem frozen_stopBegin {k : String} {e : Option Entry} {c : Circ} (hf : Frozen k e c) (hr : reserved k = false)
+    (t : Time) : Frozen k e (c.stopBegin t) := by
   have hne : k ≠ stopKey := fun h => by rw [h, reserved_stopKey] at hr; simp at hr
-  unfold Circ.stop
+  unfold Circ.stopBegin
   split
-  · exact hf.2
-  · simp only
+  · exact hf
+  · refine ⟨hf.1, ?_⟩
+    simp only
     split
     · rw [Storage.get?_set_ne _ _ hne, saveAll_other]
       · exact hf.2
@@ -1089,6 +1204,12 @@ theorem frozen_stop {k : String} {e : Option Entry} {c : Circ} (hf : Frozen k e 
         rw [hp] at this; simp at this
     · exact hf.2
 
+theorem frozen_stop {k : String} {e : Option Entry} {c : Circ} (hf : Frozen k e c) (hr : reserved k = false)
+    (t : Time) : (c.stop t).store.get? k = e := by
+  unfold Circ.stop
+  rw [stopEnd_store]
+  exact (frozen_stopBegin hf hr t).2
+
 end Edzed.Persist
 
 namespace Edzed.Persist
@@ -1096,7 +1217,8 @@ namespace Edzed.Persist
 /-! ## started circuits -/
 
 /-- the start went through (`start_ok`) and the stop has not happened yet -/
-def Live (c : Circ) : Prop := c.startOk = true ∧ c.phase ≠ .idle ∧ c.phase ≠ .stopped
+def Live (c : Circ) : Prop :=
+  c.startOk = true ∧ (c.phase = .running ∨ c.phase = .aborted ∨ c.phase = .failed)
 
 theorem live_event {c c' : Circ} {cal : Val → Option Bool} {i : Nat} {ev : Ev} {r : Res}
     (hl : Live c) (h : c.event cal i ev = some (c', r)) : Live c' := by
@@ -1112,7 +1234,8 @@ theorem live_event {c c' : Circ} {cal : Val → Option Bool} {i : Nat} {ev : Ev}
       · exact hl
       · exact hl
       · exact hl
-      · exact ⟨hl.1, by simp, by simp⟩
+      · refine ⟨hl.1, ?_⟩
+        rcases hl.2 with h | h | h <;> simp [h]
 
 theorem live_step (env : Time → Val → Option Bool) {c : Circ} (hl : Live c) (op : Op) : Live (step env c op) := by
   cases op with
@@ -1165,15 +1288,19 @@ theorem live_start (c : Circ) (cal : Val → Option Bool) (now : Time) (hidle : 
     Live (c.start cal now .ok) := by
   unfold Circ.start
   simp only [hidle, bne_self_eq_false, Bool.false_eq_true, if_false]
-  split <;> exact ⟨rfl, by simp, by simp⟩
+  split <;> exact ⟨rfl, by simp⟩
+
+/-- what the beginning of the stop leaves in the storage -/
+theorem stopBegin_store (c : Circ) (hl : Live c) (t : Time) :
+    (c.stopBegin t).store = (saveAll c.store c.blocks).set stopKey (.ts t) := by
+  unfold Circ.stopBegin
+  rcases hl.2 with h | h | h <;> simp [h, hl.1]
 
 /-- what `stop` leaves in the storage -/
 theorem stop_store (c : Circ) (hl : Live c) (t : Time) :
     (c.stop t).store = (saveAll c.store c.blocks).set stopKey (.ts t) := by
   unfold Circ.stop
-  have h1 : (c.phase == .idle || c.phase == .stopped) = false := by
-    simp [hl.2.1, hl.2.2]
-  simp [h1, hl.1]
+  rw [stopEnd_store, stopBegin_store c hl t]
 
 /-! ## what the start does to one block -/
 
@@ -1275,5 +1402,149 @@ theorem pass2_pers (cal : Val → Option Bool) (now : Time) (bs : List Blk) :
         · exact ⟨b, List.mem_cons_self .., hp, rfl⟩
         · obtain ⟨y, hy, h1, h2⟩ := ih x hx hp
           exact ⟨y, List.mem_cons_of_mem _ hy, h1, h2⟩
+
+end Edzed.Persist
+
+namespace Edzed.Persist
+
+/-! ## the stop: what is saved before the clean-up, and what the clean-up can do to it -/
+
+theorem inv_stopBegin {c : Circ} (hi : Inv c) (t : Time) : Inv (c.stopBegin t) := by
+  unfold Circ.stopBegin
+  split
+  · exact hi
+  · next hph =>
+    by_cases hf : c.phase = .failed
+    · -- clean-up after a failed start-up: nothing is claimed
+      simp only [hf, beq_self_eq_true, if_true]
+      exact ⟨hi.nodup, hi.plain, fun hg => by rcases hg with h | h | h <;> simp at h,
+        fun hg => by rcases hg with h | h | h <;> simp at h, fun hg => by rcases hg with h | h | h <;> simp at h⟩
+    · have hg : Good c := by
+        cases hp : c.phase <;> simp_all [Good]
+      have hph' : (c.phase == Phase.failed) = false := by simpa using hf
+      simp only [hph', Bool.false_eq_true, if_false]
+      refine ⟨hi.nodup, hi.plain, fun _ => hi.valid hg, ?_, ?_⟩
+      · intro _ b hb hc
+        rcases hc with hc | hc
+        · simp at hc
+        · exact hi.ok hg b hb (Or.inr hc)
+      · intro _ b hb hp hsy
+        show Storage.get? (if c.startOk = true then _ else _) b.key = _
+        split
+        · have hne : b.key ≠ stopKey := fun h => by
+            have := hi.plain _ (List.mem_map_of_mem hb)
+            rw [h, reserved_stopKey] at this; simp at this
+          rw [Storage.get?_set_ne _ _ hne]
+          exact saveAll_mem _ hi.nodup _ hb hp
+        · exact hi.synced hg b hb hp hsy
+
+theorem event_now {c c' : Circ} {cal : Val → Option Bool} {i : Nat} {ev : Ev} {r : Res}
+    (h : c.event cal i ev = some (c', r)) : c'.now = c.now := by
+  unfold Circ.event at h
+  split at h
+  · simp at h
+  · split at h
+    · simp at h
+    · simp only at h
+      generalize blockEvent _ cal c.now _ ev = p at h
+      obtain ⟨d, r0⟩ := p
+      cases r0 <;> simp only [Option.some.injEq, Prod.mk.injEq] at h <;> obtain ⟨rfl, _⟩ := h <;> rfl
+
+theorem event_ts {c c' : Circ} {cal : Val → Option Bool} {i : Nat} {ev : Ev} {r : Res}
+    (h : c.event cal i ev = some (c', r)) : c'.ts = c.ts := by
+  unfold Circ.event at h
+  split at h
+  · simp at h
+  · split at h
+    · simp at h
+    · simp only at h
+      generalize blockEvent _ cal c.now _ ev = p at h
+      obtain ⟨d, r0⟩ := p
+      cases r0 <;> simp only [Option.some.injEq, Prod.mk.injEq] at h <;> obtain ⟨rfl, _⟩ := h <;> rfl
+
+/-- the virtual clock of a history never goes back -/
+theorem now_step (env : Time → Val → Option Bool) (c : Circ) (op : Op) : c.now ≤ (step env c op).now := by
+  cases op with
+  | ev i ev =>
+    simp only [step]
+    split
+    · next c' r h => rw [event_now h]; exact Nat.le_refl _
+    · exact Nat.le_refl _
+  | fire i =>
+    simp only [step]
+    split
+    · split
+      · split
+        · next c' r h =>
+          unfold Circ.fire at h
+          split at h
+          · simp at h
+          · split at h
+            · simp at h
+            · split at h
+              · simp at h
+              · split at h
+                · simp at h
+                · next hlt =>
+                  rw [event_now h]
+                  exact Nat.le_of_not_lt hlt
+        · exact Nat.le_refl _
+      · exact Nat.le_refl _
+    · exact Nat.le_refl _
+  | adv t =>
+    simp only [step]
+    cases h : c.advance t with
+    | none => exact Nat.le_refl _
+    | some c' =>
+      unfold Circ.advance at h
+      split at h
+      · simp at h
+      · next hlt =>
+        have : c'.now = t := by
+          split at h
+          · split at h
+            · simp at h
+            · simp only [Option.some.injEq] at h; rw [← h]
+          · simp only [Option.some.injEq] at h; rw [← h]
+        simp only [Option.getD_some, this]
+        exact Nat.le_of_not_lt hlt
+
+theorem now_run (env : Time → Val → Option Bool) (ops : List Op) (c : Circ) : c.now ≤ (run env c ops).now := by
+  induction ops generalizing c with
+  | nil => exact Nat.le_refl _
+  | cons op r ih => exact Nat.le_trans (now_step env c op) (ih _)
+
+theorem start_now (c : Circ) (cal : Val → Option Bool) (now : Time) (mode : StartMode) (hidle : c.phase = .idle) :
+    (c.start cal now mode).now = now ∧ (c.start cal now mode).ts = (if mode = .abortedBefore then c.ts else readTs c.store) := by
+  unfold Circ.start
+  simp only [hidle, bne_self_eq_false, Bool.false_eq_true, if_false]
+  cases mode with
+  | abortedBefore => exact ⟨rfl, rfl⟩
+  | startRaises => exact ⟨rfl, rfl⟩
+  | ok => simp only; split <;> exact ⟨rfl, rfl⟩
+
+/-- the slot of the stop time belongs to no block -/
+theorem frozen_stamp {c : Circ} (hp : ∀ k ∈ keys c.blocks, reserved k = false) :
+    Frozen stopKey (c.store.get? stopKey) c := by
+  refine ⟨?_, rfl⟩
+  intro b hb hk
+  have := hp _ (List.mem_map_of_mem hb)
+  rw [hk, reserved_stopKey] at this; simp at this
+
+end Edzed.Persist
+
+namespace Edzed.Persist
+
+theorem mem_key_inj {l : List Blk} (hn : (keys l).Nodup) {x y : Blk} (hx : x ∈ l) (hy : y ∈ l)
+    (hk : x.key = y.key) : x = y := by
+  induction l with
+  | nil => cases hx
+  | cons a r ih =>
+    simp only [keys, List.map_cons, List.nodup_cons] at hn
+    rcases List.mem_cons.mp hx with rfl | hx' <;> rcases List.mem_cons.mp hy with rfl | hy'
+    · rfl
+    · exact absurd (hk ▸ List.mem_map_of_mem hy') hn.1
+    · exact absurd (hk ▸ List.mem_map_of_mem hx') hn.1
+    · exact ih hn.2 hx' hy'
 
 end Edzed.Persist
